@@ -140,12 +140,20 @@ func c17Invariant(w *storWorld) (string, string) {
 		if int64(len(f.Proofs)) > f.MaxProofs {
 			return "C17/prover-list-exceeds-limit", fmt.Sprintf("file %x/%s/%d lists %d provers, its replication limit is %d", f.Merkle[:4], short(f.Owner), f.Start, len(f.Proofs), f.MaxProofs)
 		}
+		seenAcc := map[string]string{}
 		for _, pk := range f.Proofs {
 			if seen[pk] {
 				return "C17/duplicate-prover", fmt.Sprintf("file %x lists %s twice", f.Merkle[:4], short(strings.SplitN(pk, "/", 2)[0]))
 			}
 			seen[pk] = true
 			prover := strings.SplitN(pk, "/", 2)[0]
+			// the same prover under two spellings of its address is still the same prover
+			if acc, err := sdk.AccAddressFromBech32(prover); err == nil {
+				if other, dup := seenAcc[acc.String()]; dup {
+					return "C17/duplicate-prover/two-spellings", fmt.Sprintf("file %x/%s/%d lists the account %s twice (as %q… and %q…): one provider holds two of its %d replica slots", f.Merkle[:4], short(f.Owner), f.Start, short(acc.String()), other[:8], prover[:8], f.MaxProofs)
+				}
+				seenAcc[acc.String()] = prover
+			}
 			pr, err := k.Proof(ctx, &storagetypes.QueryProof{ProviderAddress: prover, Merkle: f.Merkle, Owner: f.Owner, Start: f.Start})
 			if err != nil {
 				return "C17/listed-prover-without-proof-record", fmt.Sprintf("file %x/%s/%d lists %s but the Proof query finds nothing (%v)", f.Merkle[:4], short(f.Owner), f.Start, short(prover), err)
@@ -170,6 +178,19 @@ func TestC17(t *testing.T) {
 	c := chain.New(chain.GenesisOpts{NumAccounts: 3, Balance: sdk.NewCoins(sdk.NewInt64Coin("ujkl", 1_000_000_000_000_000)),
 		Faucet: sdk.NewCoins(sdk.NewInt64Coin("ujkl", 1_000_000_000_000))})
 	defer c.Close()
+	{ // plain regression replay: the same provider under two spellings of its address
+		w := newC07World(c, 4, 3)
+		o, p := w.owners[0], w.provs[0]
+		w.buyStorage(o, o.Bech, 30, 1_000_000_000, "")
+		f := buildFile(c02Content(2000), 1024)
+		w.post(o, f.Merkle, f.FileSize, 2, 0, f)
+		w.prove(p, f)
+		item, hl, _ := f.honestProof(0)
+		res := w.f.Exec(&storagetypes.MsgPostProof{Creator: strings.ToUpper(p.Bech), Item: item, HashList: hl, Merkle: f.Merkle, Owner: f.Owner, Start: f.Start, ToProve: 0})
+		w.logf("proof by the same account spelled in upper case -> %s", res)
+		sig, msg := c17Invariant(w.storWorld)
+		rec.Regress("C17/duplicate-prover/two-spellings", sig != "", msg+" | "+strings.Join(w.trace, " ; "))
+	}
 	if os_only_regress() {
 		return
 	}
@@ -251,7 +272,23 @@ func TestC17(t *testing.T) {
 				}
 				w.delete(signer, ref)
 			},
-			"prove":  func(rt *rapid.T) { w.prove(drawProv(rt), drawFile(rt)) },
+			"prove": func(rt *rapid.T) { w.prove(drawProv(rt), drawFile(rt)) },
+			"proveOtherSpelling": func(rt *rapid.T) { // the same account, address spelled in upper case (valid bech32)
+				f, p := drawFile(rt), drawProv(rt)
+				up := strings.ToUpper(p.Bech)
+				ch := int64(0)
+				if pr, found := w.c.App.StorageKeeper.GetProof(w.f.Ctx, up, f.Merkle, f.Owner, f.Start); found {
+					ch = pr.ChunkToProve
+				} else if pr, found := w.c.App.StorageKeeper.GetProof(w.f.Ctx, p.Bech, f.Merkle, f.Owner, f.Start); found {
+					ch = pr.ChunkToProve
+				}
+				item, hl, err := f.honestProof(ch)
+				if err != nil {
+					rt.Skip()
+				}
+				res := w.f.Exec(&storagetypes.MsgPostProof{Creator: up, Item: item, HashList: hl, Merkle: f.Merkle, Owner: f.Owner, Start: f.Start, ToProve: ch})
+				w.logf("proof by %s spelled in upper case for %s chunk %d -> %s", short(p.Bech), f.id(), ch, res)
+			},
 			"prove2": func(rt *rapid.T) { w.prove(drawProv(rt), drawFile(rt)) },
 			"prove3": func(rt *rapid.T) { w.prove(drawProv(rt), drawFile(rt)) },
 			"proveAll": func(rt *rapid.T) {
